@@ -254,6 +254,36 @@ def evaluate(case):
                 STOP_ON = case["end"]
                 LADDER_FORMAT = bool(case["ladder"])
             got = MObj.read_list(ws)
+        elif entry == "mixin_subclass":
+            # a reader class that inherits from another reader class and overrides ATTR_RULES; the parent class is used first
+            alt = []
+            for a in attrs:
+                a2 = dict(a)
+                if a2["kind"] == "optional" and a2.get("default") not in (None, ["factory_list"]):
+                    a2["default"] = (a2["default"] + 1) if isinstance(a2["default"], int) and not isinstance(a2["default"], bool) \
+                        else str(a2["default"]) + "-parent"
+                alt.append(a2)
+            simple = [a for a in alt if a["kind"] == "simple" and not a.get("id")]
+            for x, y in zip(simple, simple[1:]):
+                if x["conv"] == y["conv"]:
+                    x["col"], y["col"] = y["col"], x["col"]          # the parent reads these two attributes from swapped columns
+                    break
+
+            class PObj(X.XlsObject, X.TableReader):
+                _ATTRS = [a["name"] for a in attrs]
+                _NUM_ID_ATTRS = nid
+                ATTR_RULES = make_rules(X, case, alt)
+                STOP_ON = case["end"]
+                LADDER_FORMAT = bool(case["ladder"])
+            try:
+                PObj.read_list(ws)
+            except Exception:   # noqa
+                pass
+
+            class CObj(PObj):
+                ATTR_RULES = rules
+            got = CObj.read_list(ws)
+            classes.add("reader_subclass_overrides_rules_parent_used_first")
         else:
             sec = case.get("second_reader") or []
 
@@ -472,7 +502,7 @@ def st_case(draw):
             extra.insert(0, {"title": "", "conv": "str", "attr": None})
         cols = cols[:p2] + extra + cols[p2:]
     second = None
-    entry = draw(st.sampled_from(["iter_table", "read_table", "read_table", "mixin", "two_readers"]))
+    entry = draw(st.sampled_from(["iter_table", "read_table", "read_table", "mixin", "two_readers", "mixin_subclass"]))
     if entry == "two_readers":
         # second object class reads (as plain str) some of the same known columns
         cand = [c for c in cols if c["attr"] is not None]
